@@ -720,6 +720,12 @@ func runC19(c *Ctx) {
 	c.withOnlyKeys("Z14", "R17", []string{"recvVersion", "sshFxInitPacket", "sshFxVersionPacket"}, func() { runC20(c) })
 	// R18 (= C08.O3/O4): a VERSION cut short is an error, not a shorter VERSION
 	c.withRule("R18", func() { checkFrameLimits(c, newZWorld(c.P)) })
+	// R19/R20 (= C09.R1/R5 for the extended requests, posix builds): what an unknown or unadvertised extension is
+	// answered with does not depend on the read-only option (OP_UNSUPPORTED, not PERMISSION_DENIED)
+	if goos := goosOf(c.P.Cfg); goos != "windows" && goos != "plan9" {
+		c.withOnlyKeys("R1", "R19", []string{"extended"}, func() { runC09(c) })
+		c.withOnlyKeys("R5", "R20", []string{"extended"}, func() { runC09(c) })
+	}
 	// (C05 compares with package os on the posix builds only: the statvfs stub of the others answers op-unsupported)
 	if goos := goosOf(c.P.Cfg); goos != "windows" && goos != "plan9" {
 		c.withOnlyKeys("R1", "R15", []string{"sshFxpExtendedPacket"}, func() { runC05(c) })
